@@ -44,6 +44,13 @@ type NamedP struct {
 
 func (*NamedP) EventTypeName() string { return "c15.named-pointer.v3" }
 
+// Both is used both as a value and through a pointer on the same bus: the two
+// are different event types with different names ("c15.Both", "*c15.Both").
+type Both struct {
+	ID int    `json:"id"`
+	S  string `json:"s"`
+}
+
 type Code int
 
 func (Code) EventTypeName() string { return "c15.code" }
@@ -111,6 +118,8 @@ func ctrlID(m state.ControlMessage) int {
 var shapes = []shape{
 	mkShape("struct-value", false, func(id int, s string) Plain { return Plain{id, s} }, func(e Plain) int { return e.ID }),
 	mkShape("struct-pointer", true, func(id int, s string) *PlainP { return &PlainP{id, s} }, func(e *PlainP) int { return e.ID }),
+	mkShape("same-struct-value", false, func(id int, s string) Both { return Both{id, s} }, func(e Both) int { return e.ID }),
+	mkShape("same-struct-pointer", true, func(id int, s string) *Both { return &Both{id, s} }, func(e *Both) int { return e.ID }),
 	mkShape("namer-value", true, func(id int, s string) NamedV { return NamedV{id, s} }, func(e NamedV) int { return e.ID }),
 	mkShape("namer-value-as-pointer", true, func(id int, s string) *NamedVP { return &NamedVP{id, s} }, func(e *NamedVP) int { return e.ID }),
 	mkShape("namer-pointer", true, func(id int, s string) *NamedP { return &NamedP{id, s} }, func(e *NamedP) int { return e.ID }),
